@@ -160,12 +160,18 @@ def run_free(ctx, runs):
         if any(e["e"] == "Error" for e in evs):
             raise core.Infra("probe_mpmc: %s" % evs)
         tsan += err.count("WARNING: ThreadSanitizer")
-        evs = [e for e in evs if e["e"] in ("Reset", "Pops", "FreeEnd")]
-        if not evs or evs[0]["e"] != "Reset":
-            raise core.Infra("probe_mpmc free run %s produced no log (rc %d): %s" % (r, rc, err[-500:]))
-        execs.append(evs)
+        for m in re.finditer(r"SUMMARY: ThreadSanitizer: (.*?) \S*/include/(fix8/ff/\S+) in (.*)", err):
+            ctx.extra.setdefault("tsan_report_sites_not_judged", {})
+            k = "%s %s %s" % (m.group(1), m.group(2), m.group(3)[:60])
+            ctx.extra["tsan_report_sites_not_judged"][k] = ctx.extra["tsan_report_sites_not_judged"].get(k, 0) + 1
+        evs = [e for e in evs if e["e"] in ("Reset", "Pops", "FreeEnd", "Stuck")]
         if rc not in (0, 95):
             aborts.append((r, rc, core.san_report(err)))
+        if not evs or evs[0]["e"] != "Reset":
+            if rc in (0, 95):
+                raise core.Infra("probe_mpmc free run %s produced no log (rc %d): %s" % (r, rc, err[-500:]))
+            evs = [{"e": "Reset", "mode": "free", "nq": r[1], "np": r[3], "nc": r[4], "npush": r[5], "npop": 0}]  # aborted before logging
+        execs.append(evs)
     return execs, aborts, tsan
 
 
@@ -224,7 +230,7 @@ def run(ctx):
     ctx.tick("model")
 
     # ---- schedules chosen by TLC ------------------------------------------------------------------
-    r = tlc.check("MC_MPMC.tla", "MC_MPMC_cover.cfg", workers=8, timeout=900)
+    r = tlc.check("MC_MPMC.tla", "MC_MPMC_cover.cfg", workers=1, timeout=900)   # one worker: the exported shortest schedules are then the same on every run
     if not r["ok"]:
         raise core.Infra("cover run violates %s" % r["violated"])
     ctx.add_model(r, "MC_MPMC.tla", "MC_MPMC_cover.cfg", ["TicketOrder", "edge cover export"])
